@@ -89,6 +89,13 @@ CLAIMED = {
         note=TB + "; generator-based functions (rle_mask, brle_mask, sorted_*_gather_1d) and dense<->run-length converters are covered by the exhaustive bounded tier only; run counts 1..5 are a stated bound for the symbolic codecs.",
         technique="contract-based deductive verification (symbolic execution of the unmodified source over integer run lists and index arrays, position-wise decode spec, z3 LIA) + exhaustive small-scope contract evaluation on the real classes",
     ),
+    "C14": dict(
+        category="proof",
+        text="What contracts decide here is small and said so: arc.arc_center is proved for every non-collinear triple of planar points - the reported centre is equidistant from the three points (hint lemma: the denominator is 4|e1 x e2|^2; rational identities by the sympy Groebner back end, ValueError allowed for nearly collinear input). The statement itself - invariance of the reconstructed regions - runs through networkx cycle extraction and shapely polygon construction and is checked BOUNDED on the real classes: six curve sets (square, square with hole, squares nested three deep, L, two disjoint regions, triangle + L), every boundary split into 1..4 polylines at two offsets, ALL entity permutations and direction assignments (exhaustive up to 6 entities, capped at 250 / 3000 per configuration beyond), disc and annulus from 2 and 3 arcs per circle: number of regions, holes per region, area and length equal the exact values and do not depend on splitting, order or direction; rigid / similarity / mirror / shrinking transforms with five different sets of derived values read beforehand scale area by s^2 and length by s and agree with a freshly built path; DXF, SVG and dict round trips keep area, length and regions. Two defects found this way were repaired (Arc.length doubled; dict export not loadable).",
+        design_ref="DESIGN.md §4 C14",
+        note=TB + "; cycle extraction (networkx) and polygon repair / nesting (shapely) are outside the reach of contracts on the repository's Python: bounded only. The 3-D arc_center identity was tried and is undecided (not registered).",
+        technique="contract-based deductive verification of arc_center (symbolic execution, hint lemma, sympy Groebner reduction) + bounded (largely exhaustive) contract evaluation of the region invariants on the real classes",
+    ),
     "C15": dict(
         category="proof",
         text="creation.box is executed symbolically for EVERY positive extents (and in its bounds form): the twelve concrete faces are closed and consistently wound, the eight vertices are exactly the distinct corners of the requested box, the signed-tetrahedron volume of the real faces over the symbolic vertices is the product of the extents and the area 2(ab+bc+ca) (Trimesh constructor replaced by a recording ghost; placement is C04's contract). Analytic measures on a ghost self for every real parameter: Cylinder volume and inertia, Sphere volume / area / inertia, Box volume, inertia.cylinder_inertia and sphere_inertia against the textbook closed forms. Bounded on the real code: cylinder, cone, annulus for section counts 3..32 (64 thorough), box, capsule, uv_sphere, torus, icosphere, extrusions of a square / holed / L-shaped polygon, partial revolutions with caps x identity / rigid / mirror / mirror+rotation placements: watertight, consistently wound, positive volume, volume and area equal to the closed form of the inscribed tessellation; six resolution sequences converge monotonically from below to the smooth volume; five primitive kinds x three placements x sequences of one or two parameter edits x three pre-reads x ten first reads after the edit: the mesh equals that of a freshly built primitive. One defect found this way (inside-out revolved shapes under mirroring transforms) was repaired.",
